@@ -115,6 +115,31 @@ def _resolution(ctx):
                         bad = bad or (f"{nm}[{i}]", to_rat(v).fmt(), want.fmt())
             results[label] = built[0]
             ctx.ob("R38.1", f"{label}{'' if attrs is None else '.resolve'}{shape}", bad is None, "edge i of axis a is centre_a + s (i - n_a / 2): equal widths s, the domain centred on `center`, each axis with its own centre component and cell count" + (f" — differs at {bad[0]}" if bad else ""), bad[1] if bad else f"{sum(shape) + 3} edges", bad[2] if bad else "centre + s (i - n/2)")
+    # an explicit lower corner overrides the centre: edge i = origin_a + s i (the form UniformGrid.resolve itself uses)
+    origin = tuple(Rat.atom(f"o{a}") for a in range(3))
+    for shape in ((3, 4, 2),):
+        it = ctx.fresh_interp()
+        it.ext_overrides["np.arange"] = lambda it_, a, k: NdArr((int(to_rat(a[0]).const_value()),), [Rat.const(i) for i in range(int(to_rat(a[0]).const_value()))])
+        built = []
+        _capture_rectilinear(it, ix, built)
+        try:
+            it.call(it.getattr(ClassRef(ix.cls(RG)), "uniform"), [shape, s], {"origin": origin, "center": centre})
+        except Raised as r:
+            raise AnalysisError(f"RectilinearGrid.uniform(origin=...) raises: {r}")
+        bad = None
+        if len(built) != 1:
+            bad = ("constructions", len(built), 1)
+        else:
+            for a, nm in enumerate(("x_edges", "y_edges", "z_edges")):
+                e = built[0].get(nm)
+                if not (isinstance(e, NdArr) and e.shape == (shape[a] + 1,)):
+                    bad = bad or (nm, getattr(e, "shape", e), (shape[a] + 1,))
+                    continue
+                for i, v in enumerate(e.data):
+                    want = origin[a] + s * i
+                    if not to_rat(v).equals(want):
+                        bad = bad or (f"{nm}[{i}]", to_rat(v).fmt(), want.fmt())
+        ctx.ob("R38.1", f"RectilinearGrid.uniform[origin]{shape}", bad is None, "with an explicit lower corner edge i of axis a is origin_a + s i, whatever the centre" + (f" — differs at {bad[0]}" if bad else ""), bad[1] if bad else f"{sum(shape) + 3} edges", bad[2] if bad else "origin_a + s i")
     # shape derivation from a metric volume size
     f = ix.function("fdtdx.fdtd.initialization._resolve_grid_from_volume")
     ctx.unit(f.where())
